@@ -169,6 +169,10 @@ def run(ctx):
              Unit("op_av2", fams["op"], "g++", "-O0", IS_AV2),
              Unit("xyzw", fams["xyzw"], "g++", "-O1", ALL), Unit("qwxyz", fams["qwxyz"], "g++", "-O1", ALL), Unit("qxyzw", fams["qxyzw"], "g++", "-O1", ALL),
              Unit("cxx03", fams["cxx03"], "g++", "-O1", ALL)]
+    if not th:
+        # quick: the constructors (conversion constructors between packed and aligned types have AVX specialisations for double) at AVX2
+        fams["avx2"] = Family(ctx, "avx2", "avx2", False, "clang++", gdir)
+        units.append(Unit("avx2_ctor", fams["avx2"], "clang++", "-O0", IS_CTOR))
     if th:
         fams["avx2"] = Family(ctx, "avx2", "avx2", True, "clang++", gdir)
         fams["opg"] = Family(ctx, "opg", "op", False, "g++", gdir)         # g++ is very slow on the operator form: the quick-size lists
